@@ -1041,3 +1041,94 @@ Proof.
     + cbn. apply msg_same_refl.
   - discriminate.
 Qed.
+
+(* ------------------------------------------------------------------ the code, statement by statement *)
+
+(* Model/ConcatCodeRef.v is the statement-by-statement translation of internal/concat.go
+   (toSliceValue, concatSliceValue, concatMaps, concatInterfaces: loops as folds that stop at a
+   return, every reflect operation with its panics) and of the comparator / sort call of
+   concatToolCalls; Proofs/GenAgreeConcatCode.v proves on every run that the translation
+   regenerated from the current sources is this one.  The theorems below say that this code IS
+   the model the theorems above are about — for every argument, panics included. *)
+From Eino Require Import Model.ConcatGenLib Model.ConcatCodeRef Proofs.ConcatCodeRef.
+
+(* toSliceValue: the slice of the values, typed by the dynamic type of the first, or the type
+   error iff some later value has another dynamic type (a nil interface included); it panics
+   exactly on an empty list and on a nil first value (F-C14: concatMaps no longer calls it so). *)
+Theorem code_toSliceValue :
+  forall vs : list cval,
+    gen_toSliceValue vs =
+    match vs with
+    | [] => Panic
+    | v0 :: rest =>
+        match dyn_ty v0 with
+        | None => Panic
+        | Some t => if same_types t rest then Ok (t, vs) else Err E_TYPE
+        end
+    end.
+Proof. exact ref_toSliceValue. Qed.
+Print Assumptions code_toSliceValue.
+
+(* concatSliceValue on a slice of a non-map element type is [concat_typed]: the single element;
+   else the registered function; else all zero / the one non-zero / the error *)
+Theorem code_concatSliceValue :
+  forall (U : UserFn) (f : list (list (string * cval)) -> res (list (string * cval))) (t : cty) (vs : list cval),
+    not_map_ty t ->
+    gen_concatSliceValue (t, vs) = res_map Some (concat_typed f t vs).
+Proof. exact @ref_concatSliceValue. Qed.
+Print Assumptions code_concatSliceValue.
+
+Example code_concatSliceValue_nonvacuous :
+  not_map_ty (TNum 0) /\
+  gen_concatSliceValue (TNum 0, [CNum 0 7; CNum 0 0]) = Ok (Some (CNum 0 0)) /\
+  gen_concatSliceValue (TOther 1, [COther 1 0; COther 1 4; COther 1 0]) = Ok (Some (COther 1 4)) /\
+  gen_concatSliceValue (TOther 1, [COther 1 2; COther 1 4]) = Err E_MULTI.
+Proof. repeat split; vm_compute; reflexivity. Qed.
+
+(* concatMaps, one level: whatever the recursive call computes (as long as it is the model's
+   recursive call on slices of maps), the two loops of the function compute [concat_maps_step]:
+   values collected per key in chunk order, nil values dropped, one dynamic type per key,
+   maps to the recursive call, everything else to concatSliceValue, keys in first-appearance order *)
+Theorem code_concatMaps_step :
+  forall (U : UserFn) (self : sval -> res (option cval)) (f : list (list (string * cval)) -> res (list (string * cval))),
+    (forall mt ms, self (TMap mt, map (CMap mt) ms) = res_map (fun r => Some (CMap mt r)) (f ms)) ->
+    forall (mt : N) (l : list (list (string * cval))),
+      gen_concatMaps self (TMap mt, map (CMap mt) l) = res_map (fun r => Some (CMap mt r)) (concat_maps_step f l).
+Proof. exact @ref_concatMaps. Qed.
+Print Assumptions code_concatMaps_step.
+
+(* ... and with the recursion unrolled [fuel] times it is [concat_maps fuel] (the hypothesis of
+   code_concatMaps_step is satisfied by the function itself: non-vacuity) *)
+Theorem code_concatMaps :
+  forall (U : UserFn) (fuel : nat) (mt : N) (l : list (list (string * cval))),
+    gen_maps_fuel fuel (TMap mt, map (CMap mt) l) = res_map (fun r => Some (CMap mt r)) (concat_maps fuel l).
+Proof. exact @ref_concat_maps. Qed.
+Print Assumptions code_concatMaps.
+
+Example code_concatMaps_nonvacuous :
+  gen_maps_fuel 3 (TMap 0, [CMap 0 [("k"%string, CNil); ("m"%string, CMap 1 [("a"%string, CStr "x")])];
+                            CMap 0 [("m"%string, CMap 1 [("a"%string, CStr "y")]); ("k"%string, CStr "s")]])
+  = Ok (Some (CMap 0 [("k"%string, CStr "s"); ("m"%string, CMap 1 [("a"%string, CStr "xy")])])).
+Proof. vm_compute. reflexivity. Qed.
+
+(* concatInterfaces (chunks of an interface type): one key of concatMaps applied to the chunks
+   themselves; all chunks nil = the invalid Value (ConcatItems then returns the zero value) *)
+Theorem code_concatInterfaces :
+  forall (U : UserFn) (cm : sval -> res (option cval)) (f : list (list (string * cval)) -> res (list (string * cval))),
+    (forall mt ms, cm (TMap mt, map (CMap mt) ms) = res_map (fun r => Some (CMap mt r)) (f ms)) ->
+    forall (t : cty) (vs : list cval),
+      gen_concatInterfaces cm (t, vs) =
+      match filter (fun v => negb (is_nil v)) vs with
+      | [] => Ok None
+      | _ => res_map Some (concat_key f vs)
+      end.
+Proof. exact @ref_concatInterfaces. Qed.
+Print Assumptions code_concatInterfaces.
+
+(* concatToolCalls orders the merged calls with the STABLE sort and the comparator [tc_less]
+   (which never dereferences a nil index): the premises of toolcalls_deterministic / order_kept *)
+Theorem code_toolcall_order :
+  gen_tc_sort_stable = true /\
+  forall a b : toolcall, gen_tc_less (tc_idx a) (tc_idx b) = Some (tc_less a b).
+Proof. exact (conj ref_tc_sort_stable ref_tc_less). Qed.
+Print Assumptions code_toolcall_order.
